@@ -21,6 +21,9 @@ import (
 	"sort"
 	"strconv"
 	"strings"
+
+	"github.com/b2broker/simplefix-go/generator"
+	"github.com/b2broker/simplefix-go/utils"
 )
 
 // ---- the schema, read independently ----
@@ -132,6 +135,7 @@ type Record struct {
 	DirNested     string            `json:"dirNested"`
 	DirAbsolute   string            `json:"dirAbsolute"`
 	DirPopulated  string            `json:"dirPopulated"` // an output directory that holds an older, longer version of every file
+	SameDoc       string            `json:"sameDoc"`      // the schema parsed ONCE, then generated from three times in one process (the generator used as a library)
 	RefCompared   bool              `json:"refCompared"`
 	RefSame       bool              `json:"refSame"`
 	RefDiff       []string          `json:"refDiff"`
@@ -230,6 +234,36 @@ func main() {
 	} else {
 		rec.DirPopulated = "differs"
 	}
+	// the generator used as a library: the schema and the type mapping are parsed once and three packages are generated from
+	// those same objects in one process (a fresh Generator each time; absolute, nested-with-trailing-slash and relative directory)
+	rec.SameDoc = func() (res string) {
+		defer func() {
+			if p := recover(); p != nil {
+				res = fmt.Sprintf("refused:panic %v", p)
+			}
+		}()
+		doc := &generator.Doc{}
+		if err := utils.ParseXML(*xmlPath, doc); err != nil {
+			return "refused:" + err.Error()
+		}
+		config := &generator.Config{}
+		if err := utils.ParseXML(*typesPath, config); err != nil {
+			return "refused:" + err.Error()
+		}
+		base := filepath.Join(*work, "samedoc")
+		for i, d := range []string{filepath.Join(base, "one", "fixpkg"), filepath.Join(base, "two", "x", "fixpkg") + "/", filepath.Join(base, "three", "fixpkg")} {
+			if err := os.MkdirAll(d, 0o755); err != nil {
+				return "refused:" + err.Error()
+			}
+			if err := generator.NewGenerator(doc, config, "fixpkg").Execute(d); err != nil {
+				return "refused:" + err.Error()
+			}
+			if !sameFiles(files1, readDir(d)) {
+				return fmt.Sprintf("differs (generation %d from the same schema object)", i+1)
+			}
+		}
+		return "ok"
+	}()
 	// declarations of the generated package
 	extract(filepath.Join(mod, "fixpkg"), rec)
 	// reference package: declaration for declaration
